@@ -10,8 +10,7 @@ package kernel
 // ───────────── ASSUMED frames of the finalization helpers (their subjects: C09/C13 certificates, C18-C20 graph, C29 membership) ─────────────
 // For C24 only this matters: none of them writes the two CoSi maps, an aggregator's snapshot or its transaction list; they may change the
 // cache queue (finalized transactions leave it), the graph state and the store: ghost locations.
-//@ assume func (node *Node) cacheVerifyCosi
-//@   modifies ghost kernel_graph_state
+//@ -- (*Node).cacheVerifyCosi: verified contract of C09 (kernel/zz_contracts_c09_verif.go: modifies only the ghost cache version); trusted here (trustpre quiet + ignorepost)
 //@ assume func (node *Node) finalizeNodeAcceptSnapshot
 //@   modifies ghost kernel_graph_state, ghost bytes_cachequeue, ghost store_errors
 //@ assume func (chain *Chain) AddSnapshot
@@ -29,8 +28,8 @@ package kernel
 //@ func (chain *Chain) cosiHandleResponse
 //@   property C24
 //@   trustpre IsPledging ConsensusThreshold
-//@   trustpre quiet: ConsensusKeys VerifyResponse AggregateResponse
-//@   ignorepost ConsensusKeys VerifyResponse AggregateResponse
+//@   trustpre quiet: ConsensusKeys VerifyResponse AggregateResponse cacheVerifyCosi -- cacheVerifyCosi: verified by C09 (its cache invariant and key-vector preconditions are C09's subject)
+//@   ignorepost ConsensusKeys VerifyResponse AggregateResponse cacheVerifyCosi
 //@   requires CosiChainOK(chain) && m != nil && m.data != nil && m.data.PN != nil && chain.node.Peer != nil && chain.CosiCommunicatedAt != nil
 //@   requires [aggregator] has(chain.CosiAggregators, m.SnapshotHash) && chain.CosiAggregators[m.SnapshotHash] != nil && chain.CosiAggregators[m.SnapshotHash].Snapshot != nil &&
 //@       chain.CosiAggregators[m.SnapshotHash].Responses != nil && chain.CosiAggregators[m.SnapshotHash].Snapshot.Signature != nil && chain.CosiAggregators[m.SnapshotHash].Snapshot.References != nil
